@@ -12,12 +12,16 @@ from common import Ctx, driver_json, fmt, rel_close
 import uni_common as U
 
 PROPERTY = "C08"
-LEAN_MODULES = ["Proofs.C08", "Proofs.C08.Bar", "Proofs.C08.Ops", "Proofs.C08.Shares"]
+LEAN_MODULES = ["Proofs.C08", "Proofs.C08.Bar", "Proofs.C08.Ops", "Proofs.C08.Shares", "Proofs.C08.Range", "Proofs.C08.RangeOps", "Proofs.C08.Run"]
 DRIVERS = ["driver"]
 RULE = ("(a) direct V3CoreLib.update_fee on random (previous close | nan, close, range, own/pool liquidity, volumes, decimals, fee tier, tick dtype "
         "python-int/int64/float64) with a boundary stream (close or previous close exactly on a bound, one tick inside, jump across the whole range "
         "both ways, stationary inside/outside, zero liquidity, zero pool); (b) real Actuator.run with a scripted strategy that adds / removes / "
-        "collects / swaps in initialize, before_bar, on_bar and after_bar of random bars, every set_market_status and update() observed; in "
+        "collects / swaps in initialize, before_bar, on_bar and after_bar of random bars, every set_market_status and update() observed, and after every update() "
+        "the market's own get_market_balance().base_uncollected/quote_uncollected compared with the exact sum of the held positions' pending "
+        "amounts mapped by is_token0_quote (buckets uncollected:<orientation>:<tokens pending>:<held>:<transferred out>:<exact|rounded>); adds on an empty range "
+        "(lower = upper, or two ticks that trim_tick rounds together) must raise ZeroDivisionError and change nothing, and every position handed "
+        "to update() must have lower < upper and liquidity >= 0 (the invariant C08_runOps_preserves_range); in "
         "half of the runs the broker carries a second, never-written market registered before or after the one under test. "
         "Buckets = (stream, path class, model branch tag, outcome, dtype | phase pattern of the bar).")
 TRUSTED = ["arithmetic theorems are for the exact rational semantics; the driver reproduces the 35-digit Decimal results bit-exactly and the oracle "
@@ -28,6 +32,9 @@ TRUSTED = ["arithmetic theorems are for the exact rational semantics; the driver
 ASSUMPTIONS = ["Decimal arithmetic = exact result rounded half-even to 35 digits",
                "pool data rows carry Decimal amounts/liquidity (as load_uni_v3_data produces) or Python ints",
                "bar 0 has no previous bar: its path starts at its own close (DESIGN.md decision)",
+               "run-level theorems (C08_run_fees*): the market is fresh at the start of the run and every data row has currentLiquidity > 0; the "
+               "other side conditions (lower < upper, liquidity >= 0, pool + own != 0) are proved invariant (Proofs/C08/Range*.lean, Run.lean) "
+               "and observed on the implementation's states",
                "pool + own liquidity stays below 1e35: beyond 35 digits Python's sum() over a mix of int and Decimal liquidities rounds after every "
                "addition while the model rounds the exact total once (last-digit difference; such states are counted and the refreshed "
                "currentLiquidity is not compared)"]
@@ -268,6 +275,14 @@ def gen_run(rng, pool):
         for ph, pr in (("before", 0.1), ("on", 0.35), ("after", 0.15)):
             if rng.random() < pr:
                 plan[ph].setdefault(k, []).extend(op() for _ in range(rng.randint(1, 2)))
+    # an add on an empty range: lower = upper given directly, or two different ticks that trim_tick rounds to the same usable tick (spacing >= 10).
+    # _add_liquidity_by_tick only refuses lower > upper; the empty range must die in get_liquidity (ZeroDivisionError) before anything changes
+    # (theorems C08_empty_range_rejected / C08_std_kernel_rejects_empty_range), so that no position with lower = upper ever exists
+    if rng.random() < 0.6:
+        k = rng.randrange(n)
+        e = c + sp * rng.randint(-3, 3)
+        lo, up = rng.choice(((e, e), (e + 1, e + 2), (e + 2, e - 1), (e - sp // 2 + 1, e + sp // 2 - 1)))
+        plan[rng.choice(("before", "on", "on", "after"))].setdefault(k, []).append(("add_empty", lo, up, rng.choice(("0", "0.5")), rng.choice(("0", "500"))))
     dtype = "float64" if rng.random() < 0.7 else "int64"
     # a second market on the same broker that the script never writes to, registered before or after the Uniswap market under test:
     # the per-bar refresh after on_bar must reach every market with a pending write, whatever the other markets did
@@ -275,8 +290,22 @@ def gen_run(rng, pool):
     return dict(ticks=ticks, in0=in0, in1=in1, liqs=liqs, plan=plan, dtype=dtype, probe=probe)
 
 
+def snapshot(market):
+    return ([(int(k.lower_tick), int(k.upper_tick), Fraction(p.liquidity), Fraction(p.pending_amount0), Fraction(p.pending_amount1), bool(p.transferred))
+             for k, p in market.positions.items()],
+            {t.name: Fraction(a.balance) for t, a in market.broker.assets.items()})
+
+
 def do_op(market, op, log):
     keys = list(market.positions.keys())
+    if op[0] == "add_empty":
+        before, outcome = snapshot(market), "ok"
+        try:
+            market.add_liquidity_by_tick(op[1], op[2], Decimal(op[3]), Decimal(op[4]))
+        except Exception as e:  # noqa: BLE001
+            outcome = type(e).__name__
+        log.append(("add_empty", outcome, snapshot(market) == before, (op[1], op[2])))
+        return
     try:
         if op[0] == "add":
             market.add_liquidity_by_tick(op[1], op[2], Decimal(op[3]), Decimal(op[4]))
@@ -353,13 +382,20 @@ def exec_run(pool, case, extra=None):
     def upd():
         before = U.state_json(market, act.broker)
         err = None
+        bal = None
         try:
             orig_update()
+            # what the market itself reports as uncollected fees right after the bar's accrual (UniLpBalance.base_uncollected / quote_uncollected)
+            try:
+                mb = market.get_market_balance()
+                bal = {"base": U.num(Decimal(mb.base_uncollected)), "quote": U.num(Decimal(mb.quote_uncollected)), "count": int(mb.position_count)}
+            except Exception as e:  # noqa: BLE001
+                bal = {"error": type(e).__name__}
         except Exception as e:  # noqa: BLE001
             err = type(e).__name__
             raise
         finally:
-            recs.append(("update", before, U.state_json(market, act.broker), err))
+            recs.append(("update", before, U.state_json(market, act.broker), err, bal))
 
     def setst(ms, price):
         before = U.state_json(market, act.broker)
@@ -376,6 +412,75 @@ def exec_run(pool, case, extra=None):
     return recs, run_err, oplog
 
 
+def digits35(x: Fraction) -> bool:
+    """is the rational x a decimal number of at most 35 significant digits (i.e. a value a 35-digit Decimal sum returns unrounded)"""
+    n, d = abs(x.numerator), x.denominator
+    while d % 2 == 0:
+        d //= 2
+        n *= 5
+    while d % 5 == 0:
+        d //= 5
+        n *= 2
+    if d != 1:
+        return False
+    while n and n % 10 == 0:
+        n //= 10
+    return len(str(n)) <= 35
+
+
+def check_uncollected(ctx, pool, k, after, bal, rep, tagp):
+    """UniLpBalance.base_uncollected / quote_uncollected, as get_market_balance() reports them right after update(), against the exact sum of the
+    pending amounts of the positions the market holds (transferred-out positions are not counted by the code, nor here), token0/token1 mapped to
+    base/quote by is_token0_quote.  Exact when every partial sum has at most 35 digits (then no Decimal addition rounded), else 1e-30 relative."""
+    if bal is None:
+        return
+    q0 = bool(pool.is_token0_quote)
+    held = [p for p in after["positions"] if not p["tr"]]
+    if "error" in bal:
+        ctx.case(f"uncollected:{'q0' if q0 else 'q1'}:raises-{bal['error']}")
+        ctx.violate(f"uncollected.raises.{bal['error']}", f"bar {k}: get_market_balance() raised {bal['error']} after update()", rep)
+        return
+    s0 = s1 = Fraction(0)
+    exact = True
+    for p in held:
+        s0 += Fraction(p["p0"])
+        s1 += Fraction(p["p1"])
+        exact = exact and digits35(s0) and digits35(s1)
+    e_base, e_quote = (s1, s0) if q0 else (s0, s1)
+    n0 = sum(1 for p in held if Fraction(p["p0"]) != 0)
+    n1 = sum(1 for p in held if Fraction(p["p1"]) != 0)
+    both = sum(1 for p in held if Fraction(p["p0"]) != 0 and Fraction(p["p1"]) != 0)
+    cls = "none" if not held else ("both-tokens" if both else ("one-token" if n0 or n1 else "zero"))
+    ctx.case(f"uncollected:{'q0' if q0 else 'q1'}:{cls}:held{min(len(held), 3)}:{'out' if len(held) < len(after['positions']) else 'all-in'}:"
+             f"{'exact' if exact else 'rounded'}")
+    if both:
+        ctx.count("uncollected_checked_both_tokens_" + ("token0_quote" if q0 else "token1_quote"))
+    if bal["count"] != len(held):
+        ctx.violate("uncollected.position_count", f"bar {k}: position_count {bal['count']} but {len(held)} positions are held", rep)
+    for name, got, exp in (("base", Fraction(bal["base"]), e_base), ("quote", Fraction(bal["quote"]), e_quote)):
+        ok = got == exp if exact else abs(got - exp) <= TOL * len(held) * abs(exp)
+        if not ok:
+            tok = ("token1" if q0 else "token0") if name == "base" else ("token0" if q0 else "token1")
+            ctx.violate(f"uncollected.{name}", f"bar {k}: {name}_uncollected = {fmt(got)} but the held positions' pending {tok} amounts sum to {fmt(exp)} "
+                        f"(is_token0_quote={q0}, {len(held)} held of {len(after['positions'])} positions)", rep)
+        ctx.dev(got, exp)
+
+
+def check_oplog(ctx, oplog, rep):
+    """adds on an empty range (lower = upper after trimming): refused, by ZeroDivisionError out of get_liquidity as the model says, nothing changed"""
+    for o in oplog:
+        if o[0] != "add_empty":
+            continue
+        _, outcome, unchanged, (lo, up) = o
+        ctx.case(f"op:add_empty:{'same' if lo == up else 'trimmed'}:{outcome}:{'intact' if unchanged else 'changed'}")
+        if outcome == "ok":
+            ctx.violate("add.empty_range_accepted", f"add_liquidity_by_tick({lo}, {up}) on an empty range was accepted", rep)
+        elif not unchanged:
+            ctx.violate("add.empty_range_state_changed", f"add_liquidity_by_tick({lo}, {up}) raised {outcome} but positions or wallet changed", rep)
+        elif outcome != "ZeroDivisionError":
+            ctx.disagree(f"add_liquidity_by_tick({lo}, {up}) on an empty range: impl {outcome}, model ZeroDivisionError", rep)
+
+
 def check_run(ctx, pool, case, recs, run_err, rep, reqs, tagp):
     ticks, d0, d1 = case["ticks"], pool.token0.decimal, pool.token1.decimal
     fee = Fraction(pool.fee_rate)
@@ -387,7 +492,7 @@ def check_run(ctx, pool, case, recs, run_err, rep, reqs, tagp):
             raw = {"tick": str(ticks[k]), "liq": str(case["liqs"][k]), "in0": str(case["in0"][k]), "in1": str(case["in1"][k]), "price": after["row"]["price"]}
             reqs.append((rep, {"fn": "uni.setStatus", "state": before, "raw": raw, "ts": k, "open": True}, ("set", after, k)))
         else:
-            _, before, after, err = r
+            _, before, after, err, bal = r
             k = before["ts"]
             reqs.append((rep, {"fn": "uni.update", "pool": rep["pool"], "state": before}, ("update", after, err)))
             prev = ticks[k - 1] if k >= 1 else ticks[0]
@@ -398,6 +503,11 @@ def check_run(ctx, pool, case, recs, run_err, rep, reqs, tagp):
             if err is not None:
                 ctx.violate(f"update.raises.{err}.{case['dtype']}", f"update() raised {err} in bar {k} (tick {prev} -> {ticks[k]}, tick dtype {case['dtype']})", rep)
                 continue
+            check_uncollected(ctx, pool, k, after, bal, rep, tagp)
+            for p in before["positions"]:
+                # the side conditions of the amount theorems, on the implementation's own state (invariant: C08_runOps_preserves_range)
+                if not int(p["lower"]) < int(p["upper"]) or int(p["liq"]) < 0:
+                    ctx.violate("position.ill_formed", f"bar {k}: update() is handed the position [{p['lower']},{p['upper']}) with liquidity {p['liq']}", rep)
             # several positions (theorems C08_shares_sum / C08_total_fee_le_volume): whatever the ranges, all positions together earn at most
             # volume x fee rate x (own total / (pool + own total)) per token, and each at most what it would earn alone, own / (pool + own)
             pool_liq = Fraction(case["liqs"][k])
@@ -450,6 +560,7 @@ def run_runs(ctx: Ctx):
             recs, run_err, oplog = exec_run(pool, case)
             for o in oplog:
                 ctx.count(f"op_{o[0]}_{o[1]}")
+            check_oplog(ctx, oplog, rep)
             check_run(ctx, pool, case, recs, run_err, rep, reqs, case["dtype"] + (":probe-" + case["probe"] if case.get("probe") else ""))
             ctx.impl_traces += 1
             # paired run: the same script plus unrelated same-bar operations; fees may differ only through the share's denominator
@@ -458,8 +569,9 @@ def run_runs(ctx: Ctx):
                 far = min(case["ticks"]) - 5000 * sp
                 far -= far % sp
                 extra = {k: [("add", far, far + 10 * sp, "0.1", "100"), ("sell", "0.01")] for k in range(1, len(case["ticks"]), 2)}
-                recs2, err2, _ = exec_run(pool, case, extra)
+                recs2, err2, oplog2 = exec_run(pool, case, extra)
                 rep2 = dict(rep, extra={str(k): v for k, v in extra.items()})
+                check_oplog(ctx, oplog2, rep2)
                 check_run(ctx, pool, case, recs2, err2, rep2, reqs, case["dtype"] + "+unrelated")
                 ua = [r for r in recs if r[0] == "update"]
                 ub = [r for r in recs2 if r[0] == "update"]
@@ -527,10 +639,11 @@ def replay(ctx: Ctx, case) -> bool:
         extra = {int(k): [tuple(o) for o in v] for k, v in case["extra"].items()} if "extra" in case else None
         logging.disable(logging.CRITICAL)
         try:
-            recs, run_err, _ = exec_run(pool, c, extra)
+            recs, run_err, oplog = exec_run(pool, c, extra)
         finally:
             logging.disable(logging.NOTSET)
         check_run(sub, pool, c, recs, run_err, {"pool": pj}, [], "replay")
+        check_oplog(sub, oplog, {"pool": pj})
     else:
         c = dict(case)
         for k in ("cur", "in0", "in1", "p0", "p1"):
